@@ -113,6 +113,74 @@ fn main() {
         let mut want = input.clone(); want.extend_from_slice(b"tail\n");
         if out != want || timeouts < 1 { println!("FAIL: resumed reads returned {} bytes in {} timed-out rounds, expected {} bytes without loss or repetition", out.len(), timeouts, want.len()); bad += 1; }
     }
+    // text under a size limit: each call's text is the lossy decoding of exactly the bytes that call took (a multi-byte character cut
+    // by the limit is not carried over to the next call, and nothing is held back); the child has written everything and exited before
+    // the first read, so the pieces are the consecutive limit-sized slices of its output
+    {
+        *progress.lock().unwrap() = "text under a size limit".into();
+        let data: Vec<u8> = b"a\xc3\xa9b\xe2\x82\xacc\xf0\x9f\x98\x80d".to_vec();
+        for &limit in [1usize, 2, 3, 5, 6, 100].iter() {
+            checked += 1;
+            let mut comm = Exec::cmd("cat").stdin(data.clone()).stdout(Redirection::Pipe).communicate().unwrap().limit_size(limit);
+            std::thread::sleep(Duration::from_millis(150));
+            // the first read delivers the input too; give the child time to echo everything and exit: drain with byte reads? no -- text only
+            let mut pieces: Vec<String> = vec![];
+            let mut rounds = 0;
+            loop {
+                rounds += 1;
+                match comm.read_string() {
+                    Ok((Some(o), _)) => { if o.is_empty() { break; } pieces.push(o); }
+                    Ok((None, _)) => { println!("FAIL: read_string returned no stdout"); bad += 1; break; }
+                    Err(e) => { println!("FAIL: read_string under limit {} failed: {:?}", limit, e.kind()); bad += 1; break; }
+                }
+                if rounds > 100 { println!("FAIL: text reads under limit {} never reach the end", limit); bad += 1; break; }
+            }
+            // whatever slices the calls took, each piece must be the lossy decoding of a consecutive slice of at most `limit` bytes
+            fn fits(data: &[u8], pos: usize, pieces: &[String], limit: usize) -> bool {
+                if pieces.is_empty() { return pos == data.len(); }
+                (1..=limit.min(data.len() - pos)).any(|take| String::from_utf8_lossy(&data[pos..pos + take]) == pieces[0].as_str() && fits(data, pos + take, &pieces[1..], limit))
+            }
+            let ok = fits(&data, 0, &pieces, limit);
+            let pos = data.len();
+            if !ok || pos != data.len() { println!("FAIL: limit {}: the text pieces {:?} are not the lossy decodings of consecutive slices (of at most {} bytes) of {:?}", limit, pieces, limit, data); bad += 1; }
+        }
+    }
+    // a signal handler runs in the reading thread while read() waits: whatever the call had already taken from the pipes is delivered
+    // (in the Ok value or in the error's capture) and nothing is lost or repeated over the calls
+    {
+        *progress.lock().unwrap() = "reads interrupted by signals".into();
+        checked += 1;
+        extern "C" fn on_usr1(_: libc::c_int) {}
+        unsafe {
+            let mut sa: libc::sigaction = std::mem::zeroed();
+            sa.sa_sigaction = on_usr1 as usize;
+            sa.sa_flags = 0;        // no SA_RESTART
+            libc::sigaction(libc::SIGUSR1, &sa, std::ptr::null_mut());
+        }
+        let me = unsafe { libc::pthread_self() } as usize;
+        let stop = std::sync::Arc::new(std::sync::atomic::AtomicBool::new(false));
+        let stop2 = stop.clone();
+        let pinger = std::thread::spawn(move || { while !stop2.load(std::sync::atomic::Ordering::SeqCst) { std::thread::sleep(Duration::from_millis(40)); unsafe { libc::pthread_kill(me as libc::pthread_t, libc::SIGUSR1); } } });
+        let mut comm = Exec::cmd("sh").arg("-c").arg("echo first; echo efirst >&2; sleep 0.7; echo second; sleep 0.4; echo third >&2").stdout(Redirection::Pipe).stderr(Redirection::Pipe).communicate().unwrap();
+        let (mut out, mut err) = (vec![], vec![]);
+        let mut rounds = 0;
+        loop {
+            rounds += 1;
+            match comm.read() {
+                Ok((o, e)) => { out.extend(o.unwrap_or_default()); err.extend(e.unwrap_or_default()); break; }
+                Err(e) => {
+                    let (o, e2) = e.capture.clone();
+                    out.extend(o.unwrap_or_default()); err.extend(e2.unwrap_or_default());
+                    if e.kind() != std::io::ErrorKind::Interrupted { println!("FAIL: interrupted exchange failed with {:?}", e.kind()); bad += 1; break; }
+                }
+            }
+            if rounds > 500 { println!("FAIL: interrupted reads never reach the end"); bad += 1; break; }
+        }
+        stop.store(true, std::sync::atomic::Ordering::SeqCst);
+        let _ = pinger.join();
+        unsafe { libc::signal(libc::SIGUSR1, libc::SIG_DFL); }
+        if out != b"first\nsecond\n" || err != b"efirst\nthird\n" { println!("FAIL: reads interrupted by a signal handler lose or repeat data: stdout {:?} stderr {:?} over {} calls", String::from_utf8_lossy(&out), String::from_utf8_lossy(&err), rounds); bad += 1; }
+    }
     println!("{} exchanges checked, {} mismatches", checked, bad);
     if bad > 0 { std::process::exit(1); }
     println!("ok");
